@@ -23,8 +23,9 @@ impl<T: Write> WritePrinter<T> {
 
     fn print_as_is(&mut self, s: &str) -> std::io::Result<usize> {
         self.writer.write_all(s.as_bytes())?;
-        self.writer.flush()?;
+        // the text is on the device now, even if flushing fails
         self.last_column += s.len();
+        self.writer.flush()?;
         Ok(s.len())
     }
 }
@@ -49,8 +50,8 @@ impl<T: Write> Printer for WritePrinter<T> {
     }
 
     fn println(&mut self) -> std::io::Result<usize> {
-        self.last_column = 0;
         self.writer.write_all("\r\n".as_bytes())?;
+        self.last_column = 0;
         Ok(2)
     }
 
